@@ -2,6 +2,7 @@ package sim
 
 import (
 	"fmt"
+	"os"
 	"testing"
 	"testing/synctest"
 
@@ -117,14 +118,18 @@ func TestC06d(t *testing.T) {
 			t.Fatal(err)
 		}
 		wc.Op.Obj = universe[wc.Op.ObjIdx].Variants[wc.Op.Variant]
-		fs, _ := runWindow(t, wc, true)
+		fs, _ := runWindow(t, wc, os.Getenv("VERIF_NO_INJECT") == "")
 		for _, f := range fs {
 			res.Violate(f.key, f.desc, wc)
 		}
 		return
 	}
 	baseList := []string{"rich"}
-	core := coreObjs
+	// every configuration kind whose change must invalidate cached clusters / routes / endpoints
+	core := map[string]bool{"dr-w": true, "dr-a-root": true, "vs-gw": true, "envoyfilter": true, "authz": true}
+	for k := range coreObjs {
+		core[k] = true
+	}
 	if env.Thorough() {
 		baseList = []string{"rich", "scoped"}
 		core = nil
